@@ -104,6 +104,8 @@ func compileSrc(src string) (config.Compiled, config.ValidationResult, error) {
 	return compiled, res, nil
 }
 
+var tracingOnce sync.Once
+
 func newFrontWorld(src string, o worldOpts) (*frontWorld, error) {
 	compiled, res, err := compileSrc(src)
 	if err != nil {
@@ -111,6 +113,13 @@ func newFrontWorld(src string, o worldOpts) (*frontWorld, error) {
 	}
 	if !res.OK {
 		return nil, fmt.Errorf("compile: %s", config.FormatValidationText(res))
+	}
+	if compiled.Observability.TracingEnabled {
+		// as `hookaido run` does before it starts the servers (the collector is unreachable here:
+		// export errors are swallowed; the tracer provider and propagator stay installed)
+		tracingOnce.Do(func() {
+			_, _ = initTracing(context.Background(), compiled.Observability, func(error) {})
+		})
 	}
 	w := &frontWorld{src: src, compiled: compiled, running: compiled, clk: &fClock{}}
 	w.state = newRuntimeState(compiled)
